@@ -506,6 +506,61 @@ func runTrieProp(c *Ctx, t *trieRun, n int) {
 	}
 }
 
+// runExhaustive enumerates EVERY key set of 1..maxKeys keys over the universe of all
+// strings of length <= maxLen over alpha, with every string of the universe (plus a few
+// longer ones) as query. Every emitEvery-th case is also given to the model.
+func runExhaustive(c *Ctx, t *trieRun, alpha []byte, maxLen, maxKeys, emitEvery int) {
+	univ := []string{""}
+	for l, prev := 1, []string{""}; l <= maxLen; l++ {
+		next := []string{}
+		for _, p := range prev {
+			for _, a := range alpha {
+				next = append(next, p+string([]byte{a}))
+			}
+		}
+		univ = append(univ, next...)
+		prev = next
+	}
+	sort.Strings(univ)
+	queries := append([]string{}, univ...)
+	queries = append(queries, univ[len(univ)-1]+"\x00", univ[len(univ)-1]+"\xff", strings.Repeat(string(alpha[:1]), maxLen+2))
+	reported := map[string]bool{}
+	n := 0
+	var rec func(start int, cur []string)
+	rec = func(start int, cur []string) {
+		if len(cur) > 0 {
+			r := c.R.Fork()
+			tc := &TrieCase{ID: fmt.Sprintf("%s_x%d", strings.ToLower(t.pid), n), Kind: "exhaustive", Keys: append([]string{}, cur...), Queries: queries}
+			tc.Opt = randOpt(r)
+			for k := 0; t.optFilter != nil && k < 64 && !t.optFilter(tc.Opt); k++ {
+				tc.Opt = randOpt(r)
+			}
+			vk := r.Intn(VKindCnt)
+			tc.VKind = vkindNames[vk]
+			tc.IDs = genValueIDs(r, len(cur), vk)
+			tc.Enc = []string{"I8", "U16", "S16", "RAW"}[r.Intn(4)]
+			c.Or.Case(fmt.Sprint(tc.Opt, tc.Enc, tc.Keys, tc.IDs), len(cur) >= 2)
+			c.Or.Count("kind:exhaustive")
+			c.Or.Add("queries", len(queries)*2)
+			f := evalCase(c, t.pid, tc, n%emitEvery == 0)
+			if f != nil && !reported[f.key] {
+				reported[f.key] = true
+				stc, sf := shrinkCase(c, t.pid, tc, f)
+				c.Or.Violate(sf.key, sf.what, stc.replay(t.pid, sf.q, strings.HasSuffix(sf.key, "+loaded"), sf.got, sf.want))
+			}
+			n++
+		}
+		if len(cur) == maxKeys {
+			return
+		}
+		for i := start; i < len(univ); i++ {
+			rec(i+1, append(cur, univ[i]))
+		}
+	}
+	rec(0, nil)
+	c.Or.Extra["exhaustive_universe"] = map[string]interface{}{"alphabet_hex": hx(alpha), "max_len": maxLen, "max_keys": maxKeys, "universe": len(univ), "key_sets": n, "queries_per_set": len(queries), "complete": true}
+}
+
 func bucket(n int) string {
 	switch {
 	case n <= 1:
@@ -534,12 +589,26 @@ func init() {
 		runTrieProp(c, &trieRun{pid: "C02", scale: 2, qbudget: 30}, c.N(500, 6000))
 	})
 	register("C03", func(c *Ctx) {
-		runTrieProp(c, &trieRun{pid: "C03", scale: 1, qbudget: 120, optFilter: isComplete}, c.N(400, 5000))
+		t := &trieRun{pid: "C03", scale: 1, qbudget: 120, optFilter: isComplete}
+		runTrieProp(c, t, c.N(400, 5000))
+		// every key set over a small nibble-diverse universe, every string of the universe as query
+		if c.Thorough() {
+			runExhaustive(c, t, []byte{0x00, 0x0f, 0x10, 0xff}, 2, 4, 40) // universe 21, 7546 key sets
+			runExhaustive(c, t, []byte{0x01, 0x80, 0xf0}, 3, 3, 40)       // universe 40, 10700 key sets
+		} else {
+			runExhaustive(c, t, []byte{0x00, 0x0f, 0xf0}, 2, 3, 6) // universe 13, 377 key sets
+		}
 	})
 	register("C09", func(c *Ctx) {
 		runTrieProp(c, &trieRun{pid: "C09", scale: 2, qbudget: 30}, c.N(500, 6000))
 	})
 	register("C10", func(c *Ctx) {
-		runTrieProp(c, &trieRun{pid: "C10", scale: 1, qbudget: 120}, c.N(400, 5000))
+		t := &trieRun{pid: "C10", scale: 1, qbudget: 120}
+		runTrieProp(c, t, c.N(400, 5000))
+		if c.Thorough() {
+			runExhaustive(c, t, []byte{0x00, 0x0f, 0x10, 0xff}, 2, 4, 40)
+		} else {
+			runExhaustive(c, t, []byte{0x00, 0x7f, 0xff}, 2, 3, 6)
+		}
 	})
 }
